@@ -136,3 +136,41 @@ void h_pair0_sock_get_recv_fd(void) { int *fdp; VP_HAVOC_GHOSTS(); MK0(0); (void
 void h_pair0_sock_get_send_fd(void) { int *fdp; VP_HAVOC_GHOSTS(); MK0(0); (void) pair0_sock_get_send_fd(g_s0, fdp); VP_CANARY(); }
 void h_pair1_sock_get_recv_fd(void) { int *fdp; VP_HAVOC_GHOSTS(); MK1(0); (void) pair1_sock_get_recv_fd(g_s1, fdp); VP_CANARY(); }
 void h_pair1_sock_get_send_fd(void) { int *fdp; VP_HAVOC_GHOSTS(); MK1(0); (void) pair1_sock_get_send_fd(g_s1, fdp); VP_CANARY(); }
+
+/* ---- 2-step lemma (C08 FIFO through the send buffer), plain bounded model checking of the REAL functions, no contracts:
+ * the peer is busy and the buffer holds L older messages (L = 0..2) with room for two more; two sends m1, m2 are accepted
+ * in this order; as the peer finishes one send after the other (send callbacks) it is handed first the L older messages,
+ * then m1, then m2 - never m2 before m1, nothing is completed twice, dropped or freed. ---- */
+#define VP_FIFO_LEMMA(V)                                                   \
+	do {                                                                   \
+		nni_aio *a1 = VP_NEW(nni_aio), *a2 = VP_NEW(nni_aio);              \
+		nni_msg *m1 = vp_mk_msg(false), *m2 = vp_mk_msg(false);            \
+		size_t   L, i, sc, fc, fr;                                         \
+		a1->a_msg = m1; a2->a_msg = m2;                                    \
+		if (V) { m1->m_header_len = 0; m2->m_header_len = 0; }             \
+		/* initial state (the lemma's hypothesis) */                       \
+		__CPROVER_assume(PX_LMQ_PRE(&g_s##V->wmq) && g_s##V->p == g_pp##V && !g_s##V->wr_ready && g_qa.n == 0 && g_qb.n == 0); \
+		__CPROVER_assume(g_s##V->wmq.lmq_len <= 2 && g_s##V->wmq.lmq_len + 2 <= g_s##V->wmq.lmq_cap && m1 != m2); \
+		__CPROVER_assume(g_s##V->wmq.lmq_len < 1 || (LMQ_VIEW(&g_s##V->wmq, 0) != m1 && LMQ_VIEW(&g_s##V->wmq, 0) != m2)); \
+		__CPROVER_assume(g_s##V->wmq.lmq_len < 2 || (LMQ_VIEW(&g_s##V->wmq, 1) != m1 && LMQ_VIEW(&g_s##V->wmq, 1) != m2)); \
+		if (V) __CPROVER_assume(g_s##V->wmq.lmq_len == 0); /* pair1 rewrites the hop word of every message it hands on: no unknown older messages */ \
+		g_pp##V->aio_send.a_result = NNG_OK;                               \
+		L = g_s##V->wmq.lmq_len; sc = g_pipe_send_calls; fc = g_fin_calls; fr = g_free_calls; \
+		pair##V##_sock_send(g_s##V, a1);                                   \
+		__CPROVER_assert(g_fin_calls == fc + 1 && g_fin_last == a1 && g_fin_last_rv == 0, "lemma: first send accepted"); \
+		pair##V##_sock_send(g_s##V, a2);                                   \
+		__CPROVER_assert(g_fin_calls == fc + 2 && g_fin_last == a2 && g_fin_last_rv == 0 && g_pipe_send_calls == sc, "lemma: second send accepted, nothing on the wire yet"); \
+		for (i = 0; i < L; i++) {                                          \
+			pair##V##_pipe_send_cb(g_pp##V);                               \
+			__CPROVER_assert(g_pipe_send_msg != m1 && g_pipe_send_msg != m2, "lemma: older messages go first"); \
+		}                                                                  \
+		pair##V##_pipe_send_cb(g_pp##V);                                   \
+		__CPROVER_assert(g_pipe_send_calls == sc + L + 1 && g_pipe_send_msg == m1, "lemma: m1 reaches the peer before m2"); \
+		pair##V##_pipe_send_cb(g_pp##V);                                   \
+		__CPROVER_assert(g_pipe_send_calls == sc + L + 2 && g_pipe_send_msg == m2, "lemma: then m2"); \
+		pair##V##_pipe_send_cb(g_pp##V);                                   \
+		__CPROVER_assert(g_pipe_send_calls == sc + L + 2 && g_s##V->wr_ready && g_s##V->wmq.lmq_len == 0, "lemma: nothing left, nothing sent twice"); \
+		__CPROVER_assert(g_fin_calls == fc + 2 && g_free_calls == fr && g_pipe_close_calls < ((size_t) 1 << 41), "lemma: nothing completed twice or freed"); \
+	} while (0)
+void h_pair0_fifo_lemma(void) { VP_HAVOC_GHOSTS(); MK0(0); VP_FIFO_LEMMA(0); VP_CANARY(); }
+void h_pair1_fifo_lemma(void) { VP_HAVOC_GHOSTS(); MK1(0); g_s1->raw = false; VP_FIFO_LEMMA(1); VP_CANARY(); }
